@@ -354,7 +354,13 @@ class Lark(Serialize, Generic[_Return_T]):
                 # so the path that relative imports are resolved against is part of the key.
                 # repr() of a tuple keeps the parts apart: with plain concatenation, the end of
                 # a grammar text (e.g. a comment) could pass for an option, and vice versa
-                s = repr((grammar, options_key, __version__, sys.version_info[:2], str(relative_import_base_path(self.source_path))))
+                try:
+                    import_base = str(relative_import_base_path(self.source_path))
+                except TypeError:
+                    # e.g. an unnamed temporary file, whose name is a file descriptor (an int).
+                    # Relative imports can't work there anyway
+                    import_base = repr(self.source_path)
+                s = repr((grammar, options_key, __version__, sys.version_info[:2], import_base))
                 cache_sha256 = sha256_digest(s)
 
                 if isinstance(self.options.cache, str):
